@@ -78,6 +78,8 @@ def panic_class(msg):
     first = msg.split("\n")[0]
     if first.startswith("register type "):
         return "register type does not match expected type"
+    if first.startswith("SourceType ") and " cannot be converted" in first:
+        return "SourceType cannot be converted to BytecodeType"
     c = msg_class(first)
     for cut in (" in function ", " for function "):
         p = c.find(cut)
